@@ -54,8 +54,9 @@ PARS = {
     'a0': (0.5, 40.0, 1e-4), 'a1': (0.3, 20.0, 1e-3), 'a2': (0.5, 10.0, 1e-2),
     'b1': (0.4, 30.0, 1e-3), 'b2': (0.6, 15.0, 1e-2),
     'c1': (0.25, 25.0, 4e-4), 'c2': (0.7, 12.0, 4e-3),
+    'z0': (0.5, 40.0, 0.0),      # eps = 0 is documented as allowed (exact minimum)
 }
-PAR_TABLES = {0: ['a0', 'a1', 'a2'], 1: ['a0', 'b1', 'b2'], 2: ['a0', 'c1', 'c2']}
+PAR_TABLES = {0: ['a0', 'a1', 'a2', 'z0'], 1: ['a0', 'b1', 'b2', 'z0'], 2: ['a0', 'c1', 'c2', 'z0']}
 GREY_ROOTS = {0: (2, 3, 5), 1: (7, 11, 13), 2: (17, 19, 23)}
 GREY_NAMES = ['frac1', 'frac2', 'fracsq', 'mix3', 'mix4', 'half', 'ramp', 'rramp', 'nearsolid', 'nearvoid']
 
